@@ -22,6 +22,7 @@ func checkPlanFor(prop, tier string) *checkPlan {
 				{Label: "hist", Engine: "hist", Prop: "C05", Runs: n(320, 20000), FaultFree: true, Share: 5},
 				{Label: "repeat-sweep", Engine: "hist", Prop: "C05", Mode: "sweep:%d/64", Runs: n(64, 64), FaultFree: true},
 				{Label: "synth-repeat", Engine: "hist", Prop: "C05", Mode: "synthsweep:%d/1", Runs: n(96, 2500), FaultFree: true},
+				{Label: "clock-jumps", Engine: "hist", Prop: "C05", Mode: "clock", Bin: "fg", Runs: n(160, 6000)},
 				{Label: "env", Engine: "hist", Prop: "C05", Runs: n(96, 1500), Special: "env"},
 				{Label: "syscall-audit", Engine: "hist", Prop: "C05", Runs: n(48, 400), Special: "audit", Audit: true},
 			},
